@@ -269,6 +269,23 @@ func schedules(t *testing.T, cold bool) {
 			deepen(t, f)
 			deep = true
 		}
+		// half of the shared fonts are obtained the way applications obtain
+		// them, by reading a file: the reader builds its own closures, lazily
+		// decoded tables and maps (e.g. the FDSelect function of a CID-keyed
+		// font, cmap subtables), which a font value built in memory lacks
+		fromFile := false
+		if rapid.Bool().Draw(t, "fromFile") {
+			var buf bytes.Buffer
+			if pn := guard.Try(func() {
+				if _, err := f.Write(&buf); err == nil {
+					if g, err := sfnt.Read(bytes.NewReader(buf.Bytes())); err == nil {
+						f, fromFile = g, true
+					}
+				}
+			}); pn != nil {
+				fromFile = false
+			}
+		}
 		// the layout tables as they are before any operation has run (a
 		// reflective dump: it does not touch the library's own lazy state)
 		layout0 := fontcmp.Dump(f.Gsub) + fontcmp.Dump(f.Gpos) + fontcmp.Dump(f.Gdef)
@@ -381,6 +398,6 @@ func schedules(t *testing.T, cold bool) {
 			}
 		}
 		stats.CaseIn(sub, stats.Hash(hist.String()), writers >= 2, func() string { return hist.String() },
-			fmt.Sprintf("goroutines-%d", ng), fmt.Sprintf("gomaxprocs-%d", procs), "kind-"+c.Kind.String(), fmt.Sprintf("deep-nesting-%v", deep))
+			fmt.Sprintf("goroutines-%d", ng), fmt.Sprintf("gomaxprocs-%d", procs), "kind-"+c.Kind.String(), fmt.Sprintf("deep-nesting-%v", deep), fmt.Sprintf("read-from-file-%v", fromFile))
 	})
 }
